@@ -363,6 +363,7 @@ type SchemaProfile struct {
 	MaxArgs                                             int
 	ListDepth                                           int  // max list nesting of output fields
 	Keywords                                            bool // keyword-spelled names
+	ExecDirectives                                      bool // 1-3 custom directive definitions, mostly on executable locations (also without Full)
 	Full                                                bool // descriptions, deprecations, directive definitions, specifiedBy, interfaces implementing interfaces, schema description
 	OneOf                                               bool
 	Mutation, Subscription                              bool
@@ -780,6 +781,26 @@ func GenSchema(r *rand.Rand, p SchemaProfile) *Schema {
 			m.Fields = append(m.Fields, &Field{Name: g.fieldName(used), Type: g.wrapOutput(named, 0)})
 		}
 		s.Add(m)
+	}
+	if p.ExecDirectives && !p.Full {
+		n := 1 + r.IntN(3)
+		locs := []string{"QUERY", "MUTATION", "SUBSCRIPTION", "FIELD", "FRAGMENT_DEFINITION", "FRAGMENT_SPREAD", "INLINE_FRAGMENT", "FIELD", "FRAGMENT_SPREAD", "INLINE_FRAGMENT", "OBJECT", "FIELD_DEFINITION"}
+		for i := 0; i < n; i++ {
+			d := &DirectiveDef{Name: fmt.Sprintf("%s%d", []string{"auth", "cache", "tag"}[r.IntN(3)], i), Repeatable: r.IntN(3) == 0}
+			seen := map[string]bool{}
+			k := 1 + r.IntN(4)
+			for _, x := range r.Perm(len(locs))[:k] {
+				if !seen[locs[x]] {
+					seen[locs[x]] = true
+					d.Locations = append(d.Locations, locs[x])
+				}
+			}
+			sort.Strings(d.Locations)
+			if r.IntN(2) == 0 {
+				d.Args = g.args(1 + r.IntN(2))
+			}
+			s.Directives = append(s.Directives, d)
+		}
 	}
 	if p.Full {
 		n := r.IntN(3)
